@@ -148,6 +148,24 @@ def replay_history(task):
         rec["subclass"] = dict(parent=drive.project_element(objs["C"]), child=drive.project_element(objs["D"]),
                                child2=drive.project_element(objs["F"]))
         rec["post"] = _proj_heap(objs)
+        # a parent setting every class keyword; G(P) overrides nothing, H(P) overrides everything
+        from statham.schema.elements.meta import ObjectMeta, ObjectClassDict
+        P = drive.build_element(_fix(init["init"]["p0"]))
+        G = ObjectMeta("G", (P,), ObjectClassDict())
+        hcd = ObjectClassDict()
+        for k, v in drive.kwargs_of({"properties": [_fixp(p) for p in init["init"]["hprops"]]})["properties"].items():
+            hcd[k] = v
+        hkw = dict(init["init"]["hkw"])
+        for k in ("patternProperties", "depsS"):
+            if k in hkw:
+                hkw[k] = [[p[0], _fix(p[1])] for p in hkw[k]]
+        if "propertyNames" in hkw:
+            hkw["propertyNames"] = _fix(hkw["propertyNames"])
+        H = ObjectMeta("H", (P,), hcd, **drive.kwargs_of(hkw))
+        rec["merges"] = [
+            dict(parent=drive.project_element(P), child=drive.project_element(G), kw={}, props=[]),
+            dict(parent=drive.project_element(P), child=drive.project_element(H), kw=hkw,
+                 props=[_fixp(p) for p in init["init"]["hprops"]])]
         return rec
     try:
         for op in hist[:-1]:
@@ -300,22 +318,20 @@ def run(pid, tier, replay_file=None):
         states = [payload["init"], payload["state"]]
     else:
         for c in TIERS[tier]:
-            res = run_tlc("MC_Heap", _cfg(c), coverage=False, workers=8)
-            if not res.ok:
-                raise MachineryError("TLC failed on MC_Heap (a design-level property of Lifecycle is violated or TLC error):\n"
-                                     + res.raw_tail[-3000:])
-            states += res.lines
-            tlc_meta.append(dict(consts=c, states=res.states, distinct=res.distinct, wall=round(res.wall, 1)))
+            import docfamily as df
+            lines, meta = df._cached_tlc("heap-bfs", _cfg(c), module="MC_Heap", workers=8)
+            states += lines
+            tlc_meta.append(dict(consts=c, states=meta["states"], distinct=meta["distinct"],
+                                 wall=round(meta["wall"], 1), cached=meta.get("cached")))
         s = SIM[tier]
-        res = run_tlc("MC_Heap", _cfg(dict(MaxLen=s["depth"], Shape='"all"'), props=False), coverage=False,
-                      simulate=f"num={s['num']}", depth=s["depth"] + 1, seed=common.SEED + 3, workers=s["workers"])
-        if not res.ok:
-            raise MachineryError("TLC -simulate failed on MC_Heap:\n" + res.raw_tail[-2000:])
+        lines, smeta = df._cached_tlc("heap-sim", _cfg(dict(MaxLen=s["depth"], Shape='"all"'), props=False),
+                                      module="MC_Heap", simulate=f"num={s['num']}", depth=s["depth"] + 1,
+                                      seed=common.SEED + 3, workers=s["workers"])
         # simulation exports every successor of every visited state: keep the long histories
-        longs = [l for l in res.lines if len(l["hist"]) >= 4]
+        longs = [l for l in lines if len(l["hist"]) >= 4]
         longs.sort(key=lambda l: json.dumps(l["hist"], sort_keys=True))
         states += longs[:: max(1, len(longs) // (800 if tier == "quick" else 8000))]
-        tlc_meta.append(dict(simulate=s, states=res.states, kept=len(states)))
+        tlc_meta.append(dict(simulate=s, states=smeta["states"], kept=len(states)))
     inits = [s for s in states if not s["hist"] and s["init"]["values"]]
     if not inits:
         raise MachineryError("initial state not exported")
@@ -350,6 +366,12 @@ def run(pid, tier, replay_file=None):
             events.append((eid, '[id |-> %d, op |-> "subclass", parent |-> %s, child |-> %s, dkw |-> %s, dprops |-> <<>>]'
                            % (eid, tlajson_to_tla(sc["parent"]), tlajson_to_tla(sc["child2"]),
                               tlajson_to_tla(_fixkw(init["init"]["fkw"])))))
+            for m in rec.get("merges", []):
+                eid = len(index) + 1
+                index[eid] = si
+                events.append((eid, '[id |-> %d, op |-> "subclass", parent |-> %s, child |-> %s, dkw |-> %s, dprops |-> %s]'
+                               % (eid, tlajson_to_tla(m["parent"]), tlajson_to_tla(m["child"]),
+                                  tlajson_to_tla(m["kw"]), tlajson_to_tla(m["props"]))))
             continue
         op = st["hist"][-1]
         ops[op["op"] + ":" + op["x"]] += 1
